@@ -219,6 +219,61 @@ func checkBounds(l ref.Leaf, u unit, minB, maxB []byte, feat string) *kit.Failur
 	return nil
 }
 
+// bufferIndex checks the column indexes of a Buffer holding the rows.
+func bufferIndex(c Case, cols []ref.Column, rows []ref.V) *kit.Failure {
+	if len(rows) == 0 {
+		return nil
+	}
+	b := parquet.NewBuffer(pq.BuildSchema(&c.Schema))
+	if _, err := b.WriteRows(pq.Rows(&c.Schema, cols, rows)); err != nil {
+		return nil
+	}
+	streams := ref.ShredRows(&c.Schema, rows)
+	for ci, cc := range b.ColumnChunks() {
+		l := cols[ci].Leaf
+		if l.Order == ref.OrderNone {
+			continue
+		}
+		ix, err := cc.ColumnIndex()
+		if err != nil || ix == nil || ix.NumPages() != 1 {
+			continue
+		}
+		var vals []ref.LV
+		nulls := int64(0)
+		for _, e := range streams[ci] {
+			if e.Null {
+				nulls++
+			} else {
+				vals = append(vals, e)
+			}
+		}
+		feat := fmt.Sprintf("{leaf=%s,buffer}", leafClass(l))
+		where := fmt.Sprintf("Buffer column %d (%s %s)", ci, ref.PathString(cols[ci].Path), l.ID)
+		if ix.NullCount(0) != nulls {
+			return kit.Failf("c05/null-count"+feat, "%s: the column index counts %d nulls, the column holds %d", where, ix.NullCount(0), nulls)
+		}
+		if ix.NullPage(0) != (len(vals) == 0) {
+			return kit.Failf("c05/null-page"+feat, "%s: NullPage is %v with %d non-null values", where, ix.NullPage(0), len(vals))
+		}
+		if len(vals) == 0 {
+			continue
+		}
+		mn, mx := pq.FromValue(l, ix.MinValue(0)), pq.FromValue(l, ix.MaxValue(0))
+		for _, v := range vals {
+			if ref.IsNaN(l, v.I) {
+				continue
+			}
+			if cmp, ok := ref.Compare(l, v.I, v.B, mn.I, mn.B); ok && cmp < 0 {
+				return kit.Failf("c05/min-not-lower-bound"+feat, "%s: value %v is below the min %v of the column index", where, v, mn)
+			}
+			if cmp, ok := ref.Compare(l, v.I, v.B, mx.I, mx.B); ok && cmp > 0 {
+				return kit.Failf("c05/max-not-upper-bound"+feat, "%s: value %v is above the max %v of the column index", where, v, mx)
+			}
+		}
+	}
+	return nil
+}
+
 func histogram(levels []int, max int) []int64 {
 	h := make([]int64, max+1)
 	for _, l := range levels {
@@ -259,6 +314,11 @@ func runCase(c Case, o *kit.Obs) *kit.Failure {
 		o.Rejected()
 		o.Class("write-error")
 		return nil
+	}
+	// the same rows in an in-memory buffer: the column index its chunks offer (one page per column)
+	// is held to the same rule as the index of a file
+	if fl := bufferIndex(c, cols, rows); fl != nil {
+		return fl
 	}
 	info, is := c02.Verify(data, c02.Expect{Cols: cols, Streams: ref.ShredRows(&c.Schema, rows)})
 	if is != nil {
